@@ -539,6 +539,9 @@ func scnAuthz(ctx *check.JobCtx) {
 	if !w.Halted() {
 		revokedBeforeCompletion(a)
 	}
+	if !w.Halted() {
+		renewAfterGranteeUpdate(a)
+	}
 	w.Sample("authz matrix: %d models probed, trace head: %s", len(a.models), traceSummary(w))
 	w.Finish()
 }
